@@ -12,6 +12,37 @@ LOSSY = re.compile(r"::(wrapping_|saturating_|overflowing_|unchecked_)(add|sub|m
 WIDTH = {"u8": 8, "u16": 16, "u32": 32, "u64": 64, "u128": 128, "usize": 64, "i8": 8, "i16": 16, "i32": 32, "i64": 64, "i128": 128, "isize": 64, "char": 32}
 
 
+def _newtype_step(facts, f):
+    """+1 if `f` wraps its argument into a one-field tuple struct of the crate, -1 if it takes the field out again, else 0."""
+    f0 = rx.peel(f)
+    if f0.get("k") == "path":
+        segs = f0["segs"]
+        sd = facts.structs.get(segs[-1])
+        if sd is not None and len(sd.get("fields") or []) == 1 and sd.get("tuple", True) and not (sd["fields"][0].get("name") or "").isidentifier():
+            return 1
+        if len(segs) >= 2 and segs[-2] in facts.structs:
+            fn = facts.fns.get("%s::%s" % (segs[-2], segs[-1]))
+            if fn is None:
+                cand = [f_ for f_ in facts.fns.values() if not f_.test and f_.name == segs[-1] and f_.impl is not None and not f_.impl.get("trait") and norm_ty(f_.impl["self_ty"]).split("<")[0] == segs[-2]]
+                fn = cand[0] if len(cand) == 1 else None
+            sd = facts.structs[segs[-2]]
+            if fn is not None and len(sd.get("fields") or []) == 1 and fn.node.get("self") in ("self", "&self") and fn.body is not None:
+                st_ = [x for x in fn.body.get("stmts", []) if x.get("k") != "item"]
+                if len(st_) == 1 and st_[0].get("k") == "expr":
+                    e_ = rx.peel(st_[0]["e"])
+                    if e_.get("k") == "field" and rx.is_var(e_["e"], "self") and str(e_.get("name")) in ("0", sd["fields"][0].get("name")):
+                        return -1
+        return 0
+    if f0.get("k") == "closure":
+        ps = rx.closure_params(f0)
+        bd = rx.peel(rx.closure_body(f0))
+        if len(ps) == 1 and bd.get("k") == "field" and rx.is_var(bd["e"], ps[0].get("name")) and str(bd.get("name")) == "0":
+            return -1
+        if len(ps) == 1 and bd.get("k") == "call" and bd["f"].get("k") == "path" and len(bd["args"]) == 1 and rx.is_var(bd["args"][0], ps[0].get("name")):
+            return _newtype_step(facts, bd["f"]) if _newtype_step(facts, bd["f"]) == 1 else 0
+    return 0
+
+
 def run(c, facts, tier):
     b = peg.Builder(facts)
     g = peg.Grammar(b)
@@ -37,9 +68,23 @@ def run(c, facts, tier):
         body = A.single_body(b.fn_ir(key))
         ts = {}
         hops = 0
-        while body is not None and body["t"] == "ref" and hops < 4:
+        wraps = 0
+        while body is not None and body["t"] in ("ref", "map", "ctx") and hops < 8:
+            if body["t"] == "ctx":
+                body = body["p"]
+                continue
+            if body["t"] == "map":
+                # a one-field wrapper type put around the number or taken off again (`.map(Decimal)`, `.map(|d| d.0)`,
+                # `.map(Decimal::into_inner)`): the number is the same; as many must come off as go on
+                w_ = _newtype_step(facts, body["f"])
+                if w_ == 0:
+                    break
+                wraps += w_
+                body = A.unwrap(body["p"])
+                hops += 1
+                continue
             # forwarding to a (generic) helper: `unsigned::<u32>(input)`
-            ts = dict(body.get("targs") or {})
+            ts = dict(body.get("targs") or {}) or ts
             body = A.single_body(g.deref(body))
             hops += 1
         ok = False
@@ -61,7 +106,7 @@ def run(c, facts, tier):
                 t0 = f0["segs"][-2] if f0["segs"][-2] != "FromStr" else (f0.get("qself") or "")
                 targ = [ts.get(t0, t0)]
                 onparam = plain = True
-            ok = st["t"] == "set" and st["cs"] == peg.cs_in("0123456789") and st["min"] >= 1 and st["max"] is None and targ == [ty] and onparam and plain
+            ok = st["t"] == "set" and st["cs"] == peg.cs_in("0123456789") and st["min"] >= 1 and st["max"] is None and targ == [ty] and onparam and plain and wraps == 0
             det = "digit1.try_map(|s| s.parse::<%s>()) — digits %s, target type %s (field type %s), error propagated by try_map: %s" % (",".join(targ), peg.cs_show(st["cs"]) if st["t"] == "set" else "?", targ, ty, plain)
         elif body is not None:
             bad = "map" if body["t"] == "map" else body["t"]
